@@ -190,7 +190,7 @@ Proof. reflexivity. Qed.
    against a path that is not an archive entry leave the recorded updates untouched *)
 Theorem cmp_records_only_when upd envsubst neg args st :
   neg = true \/ envsubst = true \/ upd = false
-  \/ (forall n1 n2, args = [n1; n2] -> assoc_get (s_files st) (mkabs st n2) = None) ->
+  \/ (forall n1 n2, args = [n1; n2] -> assoc_get (s_files st) (clean (mkabs st n2)) = None) ->
   s_updates (outcome_state (cmd_cmp upd envsubst neg args st)) = s_updates st.
 Proof.
   intros H. unfold cmd_cmp.
@@ -212,7 +212,7 @@ Theorem cmp_differs_fails (upd envsubst : bool) args st n1 n2 t1 data :
   args = [n1; n2] -> bytes_eqb n1 n2 = false ->
   ts_read st n1 = Some t1 -> read_file (s_fs st) (mkabs st n2) = Some data ->
   bytes_eqb t1 (if envsubst then expand (s_env st) data else data) = false ->
-  envsubst = true \/ upd = false \/ assoc_get (s_files st) (mkabs st n2) = None ->
+  envsubst = true \/ upd = false \/ assoc_get (s_files st) (clean (mkabs st n2)) = None ->
   cmd_cmp upd envsubst false args st = Failed st.
 Proof.
   intros -> Hn H1 H2 Hd H. unfold cmd_cmp. rewrite Hn, H1, H2, Hd.
@@ -227,7 +227,7 @@ Qed.
 Theorem update_mode_passes st n1 n2 t1 t2 entry :
   bytes_eqb n1 n2 = false ->
   ts_read st n1 = Some t1 -> read_file (s_fs st) (mkabs st n2) = Some t2 ->
-  assoc_get (s_files st) (mkabs st n2) = Some entry ->
+  assoc_get (s_files st) (clean (mkabs st n2)) = Some entry ->
   cmd_cmp true false false [n1; n2] st
   = Done (if bytes_eqb t1 t2 then st else set_updates st (assoc_set (s_updates st) entry t1)).
 Proof.
